@@ -34,7 +34,10 @@
 (*    str.replace per declared reference, in declaration order), kept as a *)
 (*    named deviation: TLC shows on which inputs it differs from Exact     *)
 (*    (invariant SequentialAgrees is EXPECTED to fail) and the driver      *)
-(*    uses it to attribute a mismatch of the real code to its cause.       *)
+(*    uses it to attribute a mismatch of the real code to its cause;       *)
+(*  - Quoting: in one family the file read by an :output reference holds   *)
+(*    text that looks like another declared reference: a substituted value *)
+(*    is a value, it is not scanned again.                                 *)
 (***************************************************************************)
 EXTENDS Integers, Sequences, FiniteSets, TLC, Json
 
@@ -43,6 +46,8 @@ CONSTANTS RefU,          \* universe of references: sequence of [st, name, kind]
           Styles,        \* styles of the command line that are explored
           FullUsage,     \* TRUE: every usage of a reference; FALSE: one occurrence in the preferred spelling
           Faults,        \* TRUE: also the invalid inputs (a declared reference that is not used, an undeclared one)
+          Quoting,       \* function i :> j: the file that :output reference i reads CONTAINS the relative spelling of
+                         \* reference j (a value may look like a reference; it is a value all the same); <<>> = none
           Emit
 
 ConsumerStage == 1
@@ -62,6 +67,9 @@ Rel(i) == RefU[i].name \o (IF FileOf(i) = <<>> THEN <<>> ELSE <<"/">> \o FileOf(
 Abs(i) == <<StageWord(RefU[i].st), ".">> \o Rel(i)
 Str(i, sp) == IF sp = "abs" THEN Abs(i) ELSE Rel(i)
 Substituted(i) == RefU[i].kind # "copy"
+(* the value of reference i as text: opaque, or the quoted reference text *)
+ValOf(i) == IF i \in DOMAIN Quoting THEN Rel(Quoting[i]) ELSE <<ValTok[i]>>
+ASSUME \A i \in DOMAIN Quoting : i \in U /\ Quoting[i] \in U /\ RefU[i].kind = "out"
 SameStage(i) == RefU[i].st = ConsumerStage
 
 (* how a declared reference is used in the command line: the spellings of its occurrences *)
@@ -122,8 +130,8 @@ Elements(d, u, x, sty) ==
                         \o <<<<"lit", <<"-v">>>>>>
 RECURSIVE Flatten(_, _)
 ElemText(e, subst) == CASE e[1] = "lit" -> e[2]
-                        [] e[1] = "occ" -> IF subst THEN <<ValTok[e[2]]>> ELSE Str(e[2], e[3])
-                        [] OTHER -> e[2] \o (IF subst THEN <<ValTok[e[3][2]]>> ELSE Str(e[3][2], e[3][3])) \o e[4]
+                        [] e[1] = "occ" -> IF subst THEN ValOf(e[2]) ELSE Str(e[2], e[3])
+                        [] OTHER -> e[2] \o (IF subst THEN ValOf(e[3][2]) ELSE Str(e[3][2], e[3][3])) \o e[4]
 Flatten(es, subst) == Join([k \in 1..Len(es) |-> ElemText(es[k], subst)], <<" ">>)
 Text(d, u, x, sty) == Flatten(Elements(d, u, x, sty), FALSE)
 (* the structural expectation: "every occurrence replaced by that reference's own value, all other text untouched" *)
@@ -147,7 +155,7 @@ Scan(s, boundary, d) ==
   ELSE LET cands == {c \in Spellings(d) : IsPrefix(Str(c[1], c[2]), s)} IN
        IF boundary /\ cands # {}
          THEN LET best == CHOOSE c \in cands : \A e \in cands : Len(Str(c[1], c[2])) >= Len(Str(e[1], e[2]))
-              IN <<ValTok[best[1]]>> \o Scan(Drop(s, Len(Str(best[1], best[2]))), FALSE, d)
+              IN ValOf(best[1]) \o Scan(Drop(s, Len(Str(best[1], best[2]))), FALSE, d)    \* the value is not scanned again
          ELSE <<s[1]>> \o Scan(Tail(s), s[1] \in Delim, d)
 Exact(s, d) == Scan(s, TRUE, d)
 
@@ -158,8 +166,8 @@ SeqFrom(s, d, k) ==
   IF k > Len(d) THEN s
   ELSE LET i == d[k] IN
        IF ~Substituted(i) THEN SeqFrom(s, d, k + 1)
-       ELSE IF Contains(s, Abs(i)) THEN SeqFrom(ReplaceAll(s, Abs(i), <<ValTok[i]>>), d, k + 1)
-       ELSE IF Contains(s, Rel(i)) THEN SeqFrom(ReplaceAll(s, Rel(i), <<ValTok[i]>>), d, k + 1)
+       ELSE IF Contains(s, Abs(i)) THEN SeqFrom(ReplaceAll(s, Abs(i), ValOf(i)), d, k + 1)
+       ELSE IF Contains(s, Rel(i)) THEN SeqFrom(ReplaceAll(s, Rel(i), ValOf(i)), d, k + 1)
        ELSE SeqFrom(s, d, k + 1)
 Sequential(s, d) == SeqFrom(s, d, 1)
 
@@ -207,7 +215,7 @@ Perms(k) == {p \in [1..k -> 1..k] : \A a, b \in 1..k : a # b => p[a] # p[b]}
 OrderIrrelevant == phase = "resolved" =>
                      \A p \in Perms(Len(decl)) : Exact(args, [k \in 1..Len(decl) |-> decl[p[k]]]) = out
 (* no text of the command line looks like a reference after the substitution, unless an undeclared one was written *)
-NothingLeft == (phase = "resolved" /\ fault # "undeclared") =>
+NothingLeft == (phase = "resolved" /\ fault # "undeclared" /\ DOMAIN Quoting = {}) =>
                  \A i \in Range(decl) : Substituted(i) => ~Contains(out, Rel(i))
 
 (* the named deviation: EXPECTED TO FAIL -- TLC exhibits an input on which one-replace-per-reference differs *)
@@ -222,13 +230,15 @@ CleanFault == fault # "none" => SingleUse
 (* ---------------------------------------------------------------------- *)
 RefJson(k) == LET i == decl[k] IN
    [i |-> i, st |-> RefU[i].st, name |-> RefU[i].name, kind |-> RefU[i].kind, method |-> Method(i), file |-> FileOf(i),
-    rel |-> Rel(i), absolute |-> Abs(i), val |-> ValTok[i], usage |-> usage[k]]
+    rel |-> Rel(i), absolute |-> Abs(i), val |-> ValTok[i], usage |-> usage[k],
+    quotes |-> IF i \in DOMAIN Quoting THEN Rel(Quoting[i]) ELSE <<>>]
 CaseJson == [t |-> "case", decl |-> [k \in 1..Len(decl) |-> RefJson(k)], style |-> style, fault |-> fault,
              extra |-> IF extra = 0 THEN <<>> ELSE Str(extra, "abs"),
              args |-> args, expected |-> out, sequential |-> Sequential(args, decl), verdict |-> Verdict]
 EmitCase == (Emit /\ phase = "resolved" /\ CleanFault) => PrintT(ToJson(CaseJson))
 ASSUME Emit => PrintT(ToJson([t |-> "universe", refs |-> [i \in U |-> [i |-> i, st |-> RefU[i].st, name |-> RefU[i].name,
-                                                                      kind |-> RefU[i].kind, val |-> ValTok[i]]]]))
+                                                                      kind |-> RefU[i].kind, val |-> ValTok[i],
+                                                                      quotes |-> IF i \in DOMAIN Quoting THEN Rel(Quoting[i]) ELSE <<>>]]]))
 
 (* ---------------------------------------------------------------------- *)
 (* universes selected by the generated cfg files.  Names: A, BA (A is a suffix), B-A, x.A (dash / dot before *)
@@ -246,6 +256,10 @@ RefUQuick == << Mk(1, nA, "ref"), Mk(0, nA, "ref"), Mk(1, nBA, "ref"), Mk(0, nBA
                 Mk(1, nA, "copy"), Mk(0, nA, "copy") >>
 RefUThree == << Mk(1, nA, "ref"), Mk(0, nA, "ref"), Mk(1, nBA, "ref"), Mk(0, nBA, "ref"),
                 Mk(1, nA, "out"), Mk(0, nA, "out"), Mk(1, nBA, "out"), Mk(0, nBA, "reff") >>
+(* stage1.A/out.txt contains the text "BA:ref"; stage0.A/out.txt contains "A:ref" *)
+RefUQuote == << Mk(1, nA, "out"), Mk(1, nBA, "ref"), Mk(0, nA, "out"), Mk(1, nA, "ref"), Mk(0, nBA, "ref") >>
+QuotingTwo == (1 :> 2) @@ (3 :> 4)
+NoQuoting == <<>>
 RefUSix == << Mk(1, nA, "ref"), Mk(0, nA, "ref"), Mk(1, nBA, "ref"), Mk(0, nBA, "ref"), Mk(1, nA, "out"), Mk(0, nA, "out") >>
 RefUWide == << Mk(1, nA, "ref"), Mk(0, nA, "ref"), Mk(1, nBA, "ref"), Mk(0, nBA, "ref"),
                Mk(1, nBdA, "ref"), Mk(0, nxA, "ref"), Mk(1, nxA, "ref"), Mk(1, nAB, "ref"), Mk(0, nA0, "ref"),
